@@ -389,3 +389,47 @@ Theorem C15_send_pdu_classification : forall (unwrap : unwrap_fn) auth sign hdr 
   = (let* q := process_pdu_as (expect_ptype e) unwrap auth None sign hdr resp in Ok (triple_of_pdu q)).
 Proof. exact send_pdu_classification. Qed.
 Print Assumptions C15_send_pdu_classification.
+
+(* =====================================================================================================
+   10. SyncRpcClient.bind, SEMANTICALLY (not only through the twin theorem): `self._auth.step(..)` is a method call on an attribute of the
+   local `self`; the interpreter writes the provider back into `self` along the attribute path (PyAst.place_set), and Flow/World_client_hs.v
+   says what storing a provider into self._auth means (its remaining legs, ctx.complete and the log of step() arguments ARE that part of the
+   client's state).  So the sync flavour is Handshake.bind_run exactly like the async one: same statements, same fuel.
+   ===================================================================================================== *)
+Theorem C15_flow_sync_bind : forall fuel auth (legs : list leg) srv ids,
+  (List.length legs <= fuel)%nat ->
+  match bind_run auth legs srv ids with
+  | (Ok rs, s) => exists fl tk o,
+      run_self WH fuel k_flow_sync_bind [VO (OSelf (conn0 auth legs srv)); VL (map ctxv ids)] = Ok (VO (OAck false rs fl tk), o)
+      /\ (auth = true -> exists c', o = Some (VO (OSelf c')) /\ cn_st c' = s)
+  | (Raise e, _) => run_self WH fuel k_flow_sync_bind [VO (OSelf (conn0 auth legs srv)); VL (map ctxv ids)] = Raise e
+  end.
+Proof. exact flow_sync_bind. Qed.
+Print Assumptions C15_flow_sync_bind.
+Theorem C15_flow_sync_bind_run : forall fuel auth (legs : list leg) srv ids,
+  (List.length legs <= fuel)%nat ->
+  (let* v := run WH fuel k_flow_sync_bind [VO (OSelf (conn0 auth legs srv)); VL (map ctxv ids)] in Ok (ack_results v))
+  = fst (bind_run auth legs srv ids).
+Proof. exact flow_sync_bind_run. Qed.
+Print Assumptions C15_flow_sync_bind_run.
+Theorem C15_flow_sync_bind_anonymous_state : forall fuel (legs : list leg) srv ids,
+  match bind_run false legs srv ids with
+  | (Ok rs, s) => exists env' c' fl tk,
+      exec_block WH fuel (firstn 4 (pf_body k_flow_sync_bind)) [("self", VO (OSelf (conn0 false legs srv))); ("contexts", VL (map ctxv ids))]
+        = Ok (Next env')
+      /\ lookup "self" env' = Some (VO (OSelf c')) /\ cn_st c' = s /\ lookup "bind_ack" env' = Some (VO (OAck false rs fl tk))
+  | (Raise e, _) =>
+      exec_block WH fuel (firstn 4 (pf_body k_flow_sync_bind)) [("self", VO (OSelf (conn0 false legs srv))); ("contexts", VL (map ctxv ids))]
+        = Raise e
+  end.
+Proof. exact flow_sync_bind_anonymous_state. Qed.
+Print Assumptions C15_flow_sync_bind_anonymous_state.
+
+Example C15_flow_sync_bind_example :
+  run_self WH 3 k_flow_sync_bind [VO (OSelf (conn0 true [lg T1 false; lg T2 false; lg T3 true]
+      [RBindAck [0; 2] 7 (Some S1); RAlterResp [0] 7 (Some S2); RAlterResp [0] 7 None])); VL (map ctxv [0; 1])]
+  = Ok (VO (OAck false [0; 2] 7 (Some S1)),
+        Some (VO (OSelf {| cn_auth := true; cn_legs := []; cn_complete := true;
+                           cn_st := {| trace := [SBind 4 (Some T1) [0; 1]; SAlter 4 T2 [0]; SAlter 4 T3 [0]];
+                                       steps := [None; Some S1; Some S2]; sign := true; server := [] |} |}))).
+Proof. vm_compute. reflexivity. Qed.
